@@ -202,6 +202,56 @@ CLAIMED = {
         "round-trip property-based testing (Hypothesis) against a table model written to per-case temp files",
         "3/C18",
     ),
+    "C14": (
+        "Every generator class (17 entry points incl. MCMC variants, from_point / from_alpha, "
+        "generate_profile_with_dict) is run on generated parameter sets (1-3 blocs, slate sizes 1-3, supports with "
+        "exact zeros, 0/1 cohesion and proportion entries, N in 1..60, seeded streams, by_bloc on and off) and judged "
+        "by validity predicates: exact size, whole positive weights, declared candidates, no repeats, completeness "
+        "with zero-support candidates as one final tie, short-PL length, cumulative point count on supported "
+        "candidates, per-bloc maps adding up to the aggregate, and a Huntington-Hill predicate (exact-rational "
+        "divisor-method inequality) for bloc sizes and the bloc/crossover split.",
+        "AlternatingCrossover / CambridgeSampler are not checked for completeness; spatial models get explicit "
+        "kwargs; N < number of voter types is known finding F15 (dependency behaviour).",
+        "property-based testing (Hypothesis) with validity-predicate oracles incl. an exact Huntington-Hill predicate",
+        "3/C14",
+    ),
+    "C15": (
+        "The library's floats (interval normalisation and zero sets, combine_preference_intervals, name-BT "
+        "probability tables, slate-BT ballot-type tables, pref_interval_by_bloc of the name models) are compared to "
+        "relative 1e-9 with exact-rational evaluations of the defining formulas over generated intervals (1-7 "
+        "candidates, supports over nine orders of magnitude, zeros), cohesion in (0,1) and at the ends, 1-3 blocs; "
+        "every table must be over exactly the distinct orderings and sum to 1.",
+        "Relative tolerance 1e-9; the `candidates` attribute of a combined interval is not part of the statement.",
+        "property-based testing (Hypothesis) against exact-rational closed forms",
+        "3/C15",
+    ),
+    "C16": (
+        "Spatial clause, exact for every generated stream: the returned ranking->count map must equal sorting the "
+        "candidates by distance from each returned voter position (OneDimSpatial: positions observed through a "
+        "recorder around numpy's normal sampler, plus single-peakedness on a common axis).  Distribution clauses: "
+        "for parameter sets derived from VERIF_SEED with far-from-uniform intervals the harness enumerates the exact "
+        "ballot law (PL, short-PL prefixes, cumulative multinomial, slate-PL sequential cohesion draws with "
+        "renormalisation x PL fill-in, exact BT tables, slate-BT types x fill-in, IC uniform, AC slate-order "
+        "marginals, Cambridge first-listed candidates and projected historical slate patterns) and tests 20 000+ "
+        "generated ballots per set by chi-square at level 1e-9/tests; MCMC variants by a total-variation bound on a "
+        "long run.",
+        "Statistical decision at a stated level and power (a bias far below a percent in one cell is invisible); "
+        "MCMC TV bound 0.06 on <= 6 states; OneDimSpatial's recorder is used only if the call pattern is recognised.",
+        "exact metamorphic check for spatial models + chi-square goodness of fit / TV bound against harness-enumerated laws",
+        "3/C16",
+    ),
+    "C17": (
+        "Validity part (Hypothesis, seeded and scripted streams): every seat of RandomDictator / "
+        "BoostedRandomDictator goes to a candidate inside the support of the current first-place law, ties in first "
+        "place are resolved inside the tied set and recorded, recorded tallies equal the reduced profile's.  Law part: "
+        "the harness enumerates the exact law of the elected sequence (successively reduced profiles; boosted mixture "
+        "with 1/(c-1)) for parameter sets derived from VERIF_SEED (far-from-uniform shares, a first-place tie, m up to "
+        "3) and tests thousands of seeded constructions by chi-square; random tiebreaks (Plurality boundary tie, STV "
+        "elimination tie) are tested for uniformity the same way.",
+        "Statistical decision at level 1e-9/tests per run; m never exceeds the number of candidates on a ballot (F12).",
+        "property-based testing for the law's support + chi-square goodness of fit against enumerated sequence laws",
+        "3/C17",
+    ),
 }
 
 PENDING_REASON = "check not built yet in this session; the design (DESIGN.md section 3) claims it and it will be registered once it is quiet on the unchanged tree and catches its mutants"
